@@ -60,3 +60,50 @@ def aggregate(prop: str, ev: Evidence, rep: Report, results: List[Tuple[str, Any
     tot["counterexamples_replayed"] = cex
     tot["samples"] = samples
     return tot
+
+
+def run_parts(prop: str, level: str, parts: List[Tuple[str, Callable[[Any], Any], List[Any]]], meta: Dict[str, Any], assumptions: List[str]) -> int:
+    """Run several (label, worker, items) parts through one pool; aggregate into one evidence
+    file.  Workers return the result dicts of vlib.checks.pyenc.new_result()."""
+    from ..common import pmap
+
+    ev = Evidence(prop, level)
+    rep = Report(prop)
+    jobs: List[Tuple[str, Callable[[Any], Any], Any]] = []
+    for label, fn, items in parts:
+        for it in items:
+            jobs.append((label, fn, it))
+    results = pmap(_run_job, jobs)
+    per: Dict[str, Any] = {}
+    alltot: Dict[str, Any] = {}
+    samples: List[Any] = []
+    for label, _, _ in parts:
+        sub = [r for (l, _, _), r in zip(jobs, results) if l == label]
+        tot = aggregate(prop, ev, rep, sub)
+        per[label] = {k: v for k, v in tot.items() if k != "samples"}
+        for s in tot["samples"][:3]:
+            samples.append({"part": label, **s} if isinstance(s, dict) else s)
+        for k, v in tot.items():
+            if isinstance(v, (int, float)) and not isinstance(v, bool):
+                alltot[k] = alltot.get(k, 0) + v
+    ev.cov = {
+        "programs": int(alltot.get("messages", 0)),
+        "disagreements_checked": int(alltot.get("counterexamples_replayed", 0)),
+        "samples": samples or [{"note": "no sample collected"}],
+        "parts": per,
+        "paths": int(alltot.get("paths", 0)),
+        "obligations": int(alltot.get("obligations", 0)),
+        "queries": {"total": int(alltot.get("queries", 0)), "unsat": int(alltot.get("unsat", 0)), "sat": int(alltot.get("sat", 0)), "unknown": int(alltot.get("unknown", 0))},
+        "solver_s": round(alltot.get("solver_s", 0.0), 2),
+        "interpreter_validation": {"n": int(alltot.get("witness", 0)), "agree": int(alltot.get("witness_agree", 0))},
+    }
+    ev.cov.update(meta)
+    if "functions_encoded" in meta:
+        ev.cov["functions_encoded"] = repo_files(meta["functions_encoded"])
+    ev.assumptions = assumptions
+    return rep.finish(ev)
+
+
+def _run_job(job: Tuple[str, Callable[[Any], Any], Any]) -> Any:
+    _, fn, it = job
+    return fn(it)
